@@ -58,6 +58,8 @@ def fm_track(sectors, gap1=16, gap2=11, gap3=21, sync=6, gap4=40, index_mark=Tru
         put(b'\xff' * gap2)
         put(b'\x00' * sync)
         mark = 0xF8 if i in deleted else 0xFB
+        if len(sec) > 5 and sec[5] is not None:
+            mark = sec[5]            # explicit data address mark (CRC computed over it, i.e. valid)
         crc = crc16(bytes([mark]) + bytes(data))
         if i in bad_data_crc:
             crc ^= 0x0101
@@ -134,6 +136,8 @@ def mfm_track(sectors, gap1=50, gap2=22, gap3=40, sync=12, gap4=80, index_mark=T
         else:
             put_sync(A1_SYNC)
         mark = 0xF8 if i in deleted else 0xFB
+        if len(sec) > 5 and sec[5] is not None:
+            mark = sec[5]            # explicit data address mark (CRC computed over it, i.e. valid)
         crc = crc16(b'\xa1\xa1\xa1' + bytes([mark]) + bytes(data))
         if i in bad_data_crc:
             crc ^= 0x0101
